@@ -26,9 +26,12 @@ impl Tier {
 
 pub mod c01;
 pub mod c02;
+pub mod c03;
+pub mod c04;
 pub mod c05;
 pub mod c07;
 pub mod c09;
+pub mod c10;
 pub mod c11;
 pub mod c17;
 pub mod c18;
@@ -37,9 +40,12 @@ pub fn run(property: &str, tier: Tier, seed: u64) -> Option<MonOut> {
     match property {
         "C01" => Some(c01::run(tier, seed)),
         "C02" => Some(c02::run(tier, seed)),
+        "C03" => Some(c03::run(tier, seed)),
+        "C04" => Some(c04::run(tier, seed)),
         "C05" => Some(c05::run(tier, seed)),
         "C07" => Some(c07::run(tier, seed)),
         "C09" => Some(c09::run(tier, seed)),
+        "C10" => Some(c10::run(tier, seed)),
         "C11" => Some(c11::run(tier, seed)),
         "C17" => Some(c17::run(tier, seed)),
         "C18" => Some(c18::run(tier, seed)),
@@ -50,4 +56,57 @@ pub fn run(property: &str, tier: Tier, seed: u64) -> Option<MonOut> {
 /// entry point of `verif worker ...` subprocesses (isolated workloads that may abort)
 pub fn worker_main(_args: &[String]) -> i32 {
     2
+}
+
+/// re-run one recorded case (a replay file written next to a VIOLATION line, or a bare query case)
+pub fn replay_file(property: &str, path: &str) -> i32 {
+    use crate::worldjson::QueryCase;
+    let txt = match std::fs::read_to_string(path) {
+        Ok(t) => t,
+        Err(e) => {
+            eprintln!("cannot read {path}: {e}");
+            return 2;
+        }
+    };
+    let v: serde_json::Value = match serde_json::from_str(&txt) {
+        Ok(v) => v,
+        Err(e) => {
+            eprintln!("cannot parse {path}: {e}");
+            return 2;
+        }
+    };
+    let body = if v.get("replay").is_some() { &v["replay"] } else { &v };
+    let qc = match QueryCase::from_json(body) {
+        Some(q) => q,
+        None => {
+            println!("{path} does not hold a core-level query case; the recorded input is:\n{}", serde_json::to_string_pretty(body).unwrap_or_default());
+            return 2;
+        }
+    };
+    let si = match qc.build() {
+        Ok(s) => s,
+        Err(e) => {
+            eprintln!("cannot build the case: {e}");
+            return 2;
+        }
+    };
+    let mut rep = Report::new();
+    match property {
+        "C01" => c01::check_query(&qc, &si, &mut rep),
+        "C03" => c03::check_query(&qc, &si, &mut rep),
+        "C04" => c04::check_query(&qc, &si, &mut rep),
+        _ => {
+            eprintln!("property {property} has no single-case replay; see the replay file for the recorded input");
+            return 2;
+        }
+    }
+    for v in &rep.violations {
+        println!("VIOLATION property={property} replay={path}\n  signature: {}\n  {}", v.signature, v.message);
+    }
+    if rep.violations.is_empty() {
+        println!("replay of {path}: no violation");
+        0
+    } else {
+        1
+    }
 }
